@@ -628,11 +628,33 @@ func (t *DTLSTransport) Stop() error {
 	// Try closing everything and collect the errors
 	var closeErrs []error
 
+	// Close waits for the session's read loop, and that loop blocks while a stream of a new SSRC
+	// waits to be accepted. Nobody may be accepting anymore (or yet: the processors of undeclared
+	// media only start with the first applied answer), so accept and drop what is left until the
+	// loop has ended.
 	if srtpSession, err := t.getSRTPSession(); err == nil && srtpSession != nil {
+		go func() {
+			for {
+				stream, _, acceptErr := srtpSession.AcceptStream()
+				if acceptErr != nil {
+					return
+				}
+				_ = stream.Close()
+			}
+		}()
 		closeErrs = append(closeErrs, srtpSession.Close())
 	}
 
 	if srtcpSession, err := t.getSRTCPSession(); err == nil && srtcpSession != nil {
+		go func() {
+			for {
+				stream, _, acceptErr := srtcpSession.AcceptStream()
+				if acceptErr != nil {
+					return
+				}
+				_ = stream.Close()
+			}
+		}()
 		closeErrs = append(closeErrs, srtcpSession.Close())
 	}
 
